@@ -355,6 +355,71 @@ fn handle(line: &str) -> Option<String> {
                 BlockAllow::BlockedBy(i) => format!("ok blockedby {}", hex(&bag.context_by_id(i).name)),
             })
         }
+        "hashbytes" => {
+            // DefaultHasher over a raw byte string (given as hex of arbitrary bytes)
+            use std::hash::Hasher;
+            let tok = t.raw()?;
+            let mut bytes = Vec::new();
+            if tok != "." {
+                for i in (0..tok.len()).step_by(2) {
+                    bytes.push(u8::from_str_radix(tok.get(i..i + 2)?, 16).ok()?);
+                }
+            }
+            let mut h = std::collections::hash_map::DefaultHasher::new();
+            h.write(&bytes);
+            Some(format!("ok {}", h.finish()))
+        }
+        "hashpaths" => {
+            use camino::Utf8Path;
+            use std::borrow::Cow;
+            let n = t.n()?;
+            let mut v: Vec<String> = Vec::new();
+            for _ in 0..n {
+                v.push(t.s()?);
+            }
+            let paths: Vec<Cow<Utf8Path>> = v.iter().map(|x| Cow::from(Utf8Path::new(x))).collect();
+            Some(format!("ok {}", crate::utils::calculate_hash(&paths)))
+        }
+        "path" => {
+            use camino::{Utf8Path, Utf8PathBuf};
+            let op = t.raw()?;
+            let n = t.n()?;
+            let mut args: Vec<String> = Vec::new();
+            for _ in 0..n {
+                args.push(t.s()?);
+            }
+            let a = args.first().cloned().unwrap_or_default();
+            let b = args.get(1).cloned().unwrap_or_default();
+            Some(match op {
+                "push" => {
+                    let mut p = Utf8PathBuf::from(&a);
+                    p.push(&b);
+                    format!("ok {}", hex(p.as_str()))
+                }
+                "ext" => match Utf8Path::new(&a).extension() {
+                    Some(e) => format!("ok {}", hex(e)),
+                    None => "ok -".to_string(),
+                },
+                "withext" => format!("ok {}", hex(Utf8Path::new(&a).with_extension(&b).as_str())),
+                "parent" => format!(
+                    "ok {}",
+                    hex(Utf8Path::new(&a).parent().map(|p| p.as_str()).unwrap_or(""))
+                ),
+                "startswith" => format!("ok {}", Utf8Path::new(&a).starts_with(&b) as u8),
+                "ncomp" => format!("ok {}", Utf8Path::new(&a).components().count()),
+                "sort" => {
+                    let mut v: Vec<&Utf8Path> = args.iter().map(|x| Utf8Path::new(x)).collect();
+                    v.sort();
+                    let mut r = format!("ok {}", v.len());
+                    for p in v {
+                        r.push(' ');
+                        r.push_str(&hex(p.as_str()));
+                    }
+                    r
+                }
+                _ => return None,
+            })
+        }
         _ => None,
     }
 }
